@@ -49,6 +49,25 @@ def spatial_worlds(ck, n):
             op, product, value = rng.choice(["==", "<="]), False, 1
         w["lbs"] = [{"comp": "PEs", "dim": "X", "vars": vars_, "op": op, "product": product, "value": value}]
         out.append(w)
+    # two fanout levels on memories (dimension Y on GLB, X on RF), each restricted to one rank variable with
+    # "others == 1" plus a bound on that variable: the constrained inner loop then has several loops over the same
+    # rank variable above it
+    for i in range(max(2, n // 2)):
+        w = mc.gen_microspec(rng, 950 + i, n_mem=3, bounds=rng.choice([[8, 2, 2], [16, 2, 2], [8, 4, 2]]), kind="matmul")
+        for c in w["level"]:
+            w["keep"][c] = list(w["tensors"])
+            w["maykeep"][c] = []
+            if w["level"][c]:
+                w["size"][c] = 4096
+            for a in w["cost"][c]["tput"]:
+                w["cost"][c]["tput"][a] = [2, 1]
+        w["fanout"], w["lbs"] = [], []
+        for comp, dim in (("GLB", "Y"), ("RF", "X")):
+            w["fanout"].append({"comp": comp, "dim": dim, "n": 4})
+            w["lbs"].append({"comp": comp, "dim": dim, "vars": ["n", "k"], "op": "==", "product": False, "value": 1})
+            op, value = rng.choice([("==", 2), ("==", 4), ("<=", 2), (">=", 2), ("==", 1)])
+            w["lbs"].append({"comp": comp, "dim": dim, "vars": ["m"], "op": op, "product": False, "value": value})
+        out.append(w)
     return out
 
 
